@@ -252,7 +252,7 @@ func c13GroupUnit(t *testing.T, G *c13G) {
 			r.Distinct("mulgen", s.Name)
 		}
 	})
-	r.Sample(map[string]string{"op": "Mul", "k": "n-1", "P": logs[len(logs)-1].Name})
+	r.Sample(map[string]string{"op": "Mul", "k": "n-1", "k_bytes": verifmc.FullHex(G.scalarBytes(new(big.Int).Sub(N, big.NewInt(1)))), "P": logs[len(logs)-1].Name, "P_bytes": verifmc.FullHex(G.encode(logs[len(logs)-1].V))})
 
 	r.RequireCounter("add_P_eq_Q", 5)
 	r.RequireCounter("add_P_eq_negQ", 5)
